@@ -3,7 +3,9 @@
 // Contracts for packet.go (properties C02 C04 C05 C08 C09 C14 C15).
 package corebgp
 
-//@ func prependHeader returns (r)
+//@ func prependHeader (m, t) returns (r)
+//@   local b #0 []uint8
+//@   local i #0 int
 //@   ensures [length]   len(r) == len(m) + 19
 //@   ensures [marker]   markerOK(r)
 //@   ensures [lenfield] be16(r, 16) == (len(m) + 19) % 65536
@@ -13,7 +15,7 @@ package corebgp
 //@   modifies nothing
 //@   loop#0 invariant [marker] forall j :: 0 <= j && j < i ==> b[j] == 255
 
-//@ func Notification.encode returns (b, err)
+//@ func Notification.encode (n) returns (b, err)
 //@   ensures [no_error]      err == nil
 //@   ensures [length]        len(b) == 21 + len(n.Data)
 //@   ensures [header]        markerOK(b) && be16(b, 16) == (21 + len(n.Data)) % 65536 && b[18] == 3
@@ -22,7 +24,7 @@ package corebgp
 //@   ensures [fresh]         fresh(b.arr)
 //@   modifies nothing
 
-//@ func Notification.decode returns (err)
+//@ func Notification.decode (n, b) returns (err)
 //@   ensures [short_iff_error] (err != nil) == (len(b) < 2)
 //@   ensures [code]    err == nil ==> n.Code == b[0] && n.Subcode == b[1]
 //@   ensures [datalen] err == nil && len(b) > 2 ==> len(n.Data) == len(b) - 2
@@ -35,17 +37,18 @@ package corebgp
 
 // ---- capability helpers (C15) ----
 
-//@ func AddPathTuple.Decode returns (err)
+//@ func AddPathTuple.Decode (a, b) returns (err)
 //@   ensures [accept_iff] (err == nil) == (len(b) >= 4 && 1 <= b[3] && b[3] <= 3)
 //@   ensures [fields]     err == nil ==> a.AFI == be16(b, 0) && a.SAFI == b[2] && a.Tx == (old(a.Tx) || b[3] >= 2) && a.Rx == (old(a.Rx) || b[3] == 1 || b[3] == 3)
 //@   ensures [class]      err != nil ==> isNotif(err, 2, 0)
 //@   modifies *a
 
-//@ func AddPathTuple.Encode returns (r)
+//@ func AddPathTuple.Encode (a) returns (r)
 //@   ensures [layout] len(r) == 4 && be16(r, 0) == a.AFI && r[2] == a.SAFI && r[3] == srCode(a.Tx, a.Rx)
 //@   ensures [fresh]  fresh(r.arr)
 
-//@ func DecodeAddPathTuples returns (r, err)
+//@ func DecodeAddPathTuples (b) returns (r, err)
+//@   local tuples #0 []AddPathTuple
 //@   ghost b0 = b
 //@   ghostvar fk int = 0
 //@   at call Decode#0 set fk = len(tuples)
@@ -58,20 +61,21 @@ package corebgp
 //@   loop#0 invariant [values] forall k :: 0 <= k && k < len(tuples) ==> 1 <= b0[4*k+3] && b0[4*k+3] <= 3 && tuples[k].AFI == be16(b0, 4*k) && tuples[k].SAFI == b0[4*k+2] && tuples[k].Tx == (b0[4*k+3] >= 2) && tuples[k].Rx == (b0[4*k+3] == 1 || b0[4*k+3] == 3)
 //@   loop#0 decreases len(b)
 
-//@ func NewAddPathCapability returns (r)
+//@ func NewAddPathCapability (tuples) returns (r)
+//@   local value #0 []uint8
 //@   ensures [code]   r.Code == 69
 //@   ensures [length] len(r.Value) == 4 * len(tuples)
 //@   ensures [values] forall k :: 0 <= k && k < len(tuples) ==> be16(r.Value, 4*k) == tuples[k].AFI && r.Value[4*k+2] == tuples[k].SAFI && r.Value[4*k+3] == srCode(tuples[k].Tx, tuples[k].Rx)
 //@   loop#0 invariant [count]  len(value) == 4 * (rangeindex + 1) && fresh(value.arr) && rangeindex >= -1
 //@   loop#0 invariant [values] forall k :: 0 <= k && k <= rangeindex ==> be16(value, 4*k) == tuples[k].AFI && value[4*k+2] == tuples[k].SAFI && value[4*k+3] == srCode(tuples[k].Tx, tuples[k].Rx)
 
-//@ func NewMPExtensionsCapability returns (r)
+//@ func NewMPExtensionsCapability (afi, safi) returns (r)
 //@   ensures [layout] r.Code == 1 && len(r.Value) == 4 && be16(r.Value, 0) == afi && r.Value[2] == 0 && r.Value[3] == safi
 
-//@ func newFourOctetASCap returns (c)
+//@ func newFourOctetASCap (asn) returns (c)
 //@   ensures [layout] c.Code == 65 && len(c.Value) == 4 && be32(c.Value, 0) == asn && fresh(c.Value.arr)
 
-//@ func Capability.encode returns (r)
+//@ func Capability.encode (c) returns (r)
 //@   ensures [layout] len(r) == 2 + len(c.Value) && r[0] == c.Code && r[1] == len(c.Value) % 256 && (forall i :: 0 <= i && i < len(c.Value) ==> r[2+i] == c.Value[i])
 //@   ensures [fresh]  fresh(r.arr)
 
@@ -80,7 +84,7 @@ package corebgp
 // One capabilities optional parameter. The precondition len(b) <= 255 is what
 // keeps the uint8 expression capLen+2 from wrapping; it is established by
 // openMessage.decode (the optional parameters length is a single octet).
-//@ func capabilityOptionalParam.decode returns (err)
+//@ func capabilityOptionalParam.decode (c, b) returns (err)
 //@   requires [fits_octet] len(b) <= 255
 //@   requires [fresh_param] c.capabilities == nil
 //@   ghost b0 = b
@@ -106,7 +110,9 @@ package corebgp
 // That per-parameter fact is recorded in the ghost field capsFrom(c) = offset of
 // the parameter; it is not re-derived for earlier parameters after later ones
 // have been decoded (nested quantifier over two heap columns; see DESIGN C15).
-//@ func decodeOptionalParams returns (r, err)
+//@ func decodeOptionalParams (b) returns (r, err)
+//@   local c #0 *capabilityOptionalParam
+//@   local params #0 []optionalParam
 //@   requires [fits_octet] len(b) <= 255
 //@   ghost b0 = b
 //@   ghostvar poffs intarray = emptyArr()
@@ -131,12 +137,12 @@ package corebgp
 //@   ensures [fault_unknown_type] ftype ==> capOK(b, fpos) && b[fpos] != 2
 //@   ensures [fault_in_capabilities] fcap ==> capOK(b, fpos) && b[fpos] == 2
 
-//@ func newNotification returns (n)
+//@ func newNotification (code, subcode, data) returns (n)
 //@   ensures [fields] n != nil && fresh(n) && n.Code == code && n.Subcode == subcode && n.Data == data
-//@ func newNotificationError returns (e)
+//@ func newNotificationError (n, out) returns (e)
 //@   ensures [fields] e != nil && fresh(e) && e.notification == n && e.out == out
 
-//@ func openMessage.decode returns (err)
+//@ func openMessage.decode (o, b) returns (err)
 //@   requires [fresh_message] o.optionalParams == nil
 //@   ghostvar poffs intarray = emptyArr()
 //@   at call decodeOptionalParams#0 after set poffs = callee_poffs
@@ -149,7 +155,7 @@ package corebgp
 //@   ensures [no_partial_params] err != nil ==> o.optionalParams == old(o.optionalParams)
 //@   modifies *o
 
-//@ func messageFromBytes returns (m, err)
+//@ func messageFromBytes (b, messageType) returns (m, err)
 //@   ensures [known_type_iff] (1 <= messageType && messageType <= 4) || (m == nil && isOutNotifErr(err, 1, 3) && len(notifOf(err).Data) == 1 && notifOf(err).Data[0] == messageType)
 //@   ensures [exactly_one] (m == nil) != (err == nil)
 //@   ensures [error_shape] err != nil && hasType(err, *notificationError) ==> firstOf(err, *notificationError) != nil && firstOf(err, *notificationError).out && firstOf(err, *notificationError).notification != nil && len(firstOf(err, *notificationError).notification.Data) <= 10
@@ -165,7 +171,8 @@ package corebgp
 // sum `total`), and it starts with the capabilities of the first parameter,
 // element-identical (same code, same value sub-slice) and in order -- which is
 // the whole list for the single-parameter OPENs every implementation sends.
-//@ func openMessage.getCapabilities returns (r)
+//@ func openMessage.getCapabilities (o) returns (r)
+//@   local caps #0 []Capability
 //@   requires [params_non_nil] forall k :: 0 <= k && k < len(o.optionalParams) && isType(o.optionalParams[k], *capabilityOptionalParam) ==> asType(o.optionalParams[k], *capabilityOptionalParam) != nil
 //@   requires [first_param_allocated] len(o.optionalParams) >= 1 && isType(o.optionalParams[0], *capabilityOptionalParam) ==> allocated(asType(o.optionalParams[0], *capabilityOptionalParam).capabilities.arr)
 //@   ghostvar total int = 0
@@ -181,7 +188,8 @@ package corebgp
 
 // validate: the acceptability predicate of property C02 over the decoded OPEN.
 // caps below is the list getCapabilities returned (captured by identity).
-//@ func openMessage.validate returns (err)
+//@ func openMessage.validate (o, localID, localAS, remoteAS) returns (err)
+//@   local fourOctetASFound #1 bool
 //@   requires [params_non_nil] forall k :: 0 <= k && k < len(o.optionalParams) && isType(o.optionalParams[k], *capabilityOptionalParam) ==> asType(o.optionalParams[k], *capabilityOptionalParam) != nil
 //@   requires [first_param_allocated] len(o.optionalParams) >= 1 && isType(o.optionalParams[0], *capabilityOptionalParam) ==> allocated(asType(o.optionalParams[0], *capabilityOptionalParam).capabilities.arr)
 //@   ghostvar cA int = 0
@@ -220,7 +228,8 @@ package corebgp
 // encoded capability (code octet, value verbatim) follow from Capability.encode's
 // own contract and the append semantics; carrying them through this loop as an
 // invariant is not yet discharged (see DESIGN C14) and is not claimed.
-//@ func capabilityOptionalParam.encode returns (b, err)
+//@ func capabilityOptionalParam.encode (c) returns (b, err)
+//@   local caps #1 []uint8
 //@   ghostvar offs intarray = emptyArr()
 //@   at call encode#0 set offs = store(offs, rangeindex + 1, len(caps))
 //@   loop#0 invariant [shape]  -1 <= rangeindex && rangeindex + 1 <= len(c.capabilities) && fresh(caps.arr) && len(c.capabilities) > 0
@@ -233,12 +242,13 @@ package corebgp
 //@   ensures [every_value_fits_one_octet] err == nil ==> (forall k :: 0 <= k && k < len(c.capabilities) ==> len(c.capabilities[k].Value) <= 255)
 //@   ensures [oversized_rejected] (exists k :: 0 <= k && k < len(c.capabilities) && len(c.capabilities[k].Value) > 255) ==> err != nil
 
-//@ func keepAliveMessage.encode returns (b, err)
+//@ func keepAliveMessage.encode (k) returns (b, err)
 //@   ensures [keepalive] err == nil && len(b) == 19 && markerOK(b) && be16(b, 16) == 19 && b[18] == 4 && fresh(b.arr)
 
 // openMessage.encode: on success the result is one well-formed OPEN message
 // whose optional parameters length octet equals the bytes that follow.
-//@ func openMessage.encode returns (b, err)
+//@ func openMessage.encode (o) returns (b, err)
+//@   local params #1 []uint8
 //@   requires [params_non_nil] forall k :: 0 <= k && k < len(o.optionalParams) ==> isType(o.optionalParams[k], *capabilityOptionalParam) && asType(o.optionalParams[k], *capabilityOptionalParam) != nil
 //@   loop#0 invariant [shape] -1 <= rangeindex && rangeindex + 1 <= len(o.optionalParams) && fresh(params.arr) && len(b) == 9 && fresh(b.arr) && b.arr != params.arr && b[0] == o.version && be16(b, 1) == o.asn && be16(b, 3) == o.holdTime && be32(b, 5) == o.bgpID
 //@   ensures [nil_on_error] err != nil ==> b == nil
@@ -250,7 +260,8 @@ package corebgp
 // = [4-octet-AS capability of the local AS] ++ the plugin's capabilities without
 // any code-65 entry, order-preserving and element-identical. dst[j] is where
 // input capability j went, src[k] where output k came from.
-//@ func newOpenMessage returns (o, err)
+//@ func newOpenMessage (asn, holdTime, bgpID, caps) returns (o, err)
+//@   local allCaps #0 []Capability
 //@   requires [hold_time_in_range] holdTime >= 0 && holdTime <= 65535000000000
 //@   ghostvar dst intarray = emptyArr()
 //@   ghostvar src intarray = emptyArr()
